@@ -1,3 +1,5 @@
 #!/bin/bash
-# runs the repository's own suite (guard off; there are no hooks) and prints "<passed> <failed>"
+# runs the repository's own suite (guard off; there are no hooks) and prints "<passed> <failed>",
+# first with the pinned command, then with every optional feature enabled (proptest, serde, icu)
 cd /repo && cargo test --workspace --no-fail-fast --offline 2>&1 | grep -E '^test result' | awk '{p+=$4; f+=$6} END {print p, f}'
+cd /repo && cargo test --workspace --no-fail-fast --offline --all-features 2>&1 | grep -E '^test result' | awk '{p+=$4; f+=$6} END {print p, f, "(all features)"}'
